@@ -134,7 +134,7 @@ func bindSetCommon[T comparable](d *drv, s setAPI[T], c *codec[T]) {
 	d.contains = func(vs ...int) bool { return s.Contains(c.encs(vs)...) }
 }
 
-func constructSet[T comparable](d *drv, c *codec[T]) {
+func constructSet[T comparable](d *drv, c *codec[T], newTreeSet func() *treeset.Set[T]) {
 	switch d.cfg.Kind {
 	case "HashSet":
 		s := hashset.New[T]()
@@ -143,6 +143,9 @@ func constructSet[T comparable](d *drv, c *codec[T]) {
 		d.fingerprint = func() string { return "HS" + fmt.Sprint(sortedInts(decs(d, c, s.Values()))) }
 	case "TreeSet":
 		s := treeset.NewWith[T](c.cmpCfg(d.cfg.KRev, d.cfg.KTie))
+		if newTreeSet != nil {
+			s = newTreeSet()
+		}
 		bindSetCommon[T](d, s, c)
 		d.iterF = func() [][2]int { it := s.Iterator(); return walkIdxF[T](d, &it, c) }
 		d.iterB = func() [][2]int { it := s.Iterator(); return walkIdxB[T](d, &it, c) }
@@ -163,18 +166,19 @@ func constructSet[T comparable](d *drv, c *codec[T]) {
 			if !dllLinks(ord) {
 				return false
 			}
-			tbl := sortedInts(decs(d, c, s.VerifTable()))
 			f, _, _, _ := ord.VerifChain(walkLimit)
-			o := sortedInts(decs(d, c, f))
-			if len(tbl) != len(o) {
-				return false
+			tbl := map[T]bool{}
+			for _, k := range s.VerifTable() {
+				tbl[k] = true
 			}
-			for i := range tbl {
-				if tbl[i] != o[i] || (i > 0 && o[i] == o[i-1]) {
+			seen := map[T]bool{}
+			for _, k := range f { // compared with ==: -0 and +0 are the same element
+				if !tbl[k] || seen[k] {
 					return false
 				}
+				seen[k] = true
 			}
-			return true
+			return len(tbl) == len(f)
 		}
 		d.fingerprint = func() string {
 			return "LHS" + fmt.Sprint(sortedInts(decs(d, c, s.VerifTable()))) + dllFP(d, s.VerifOrdering(), c)
@@ -194,7 +198,7 @@ func wrapPop[T comparable](d *drv, c *codec[T], f func() (T, bool)) func() (int,
 	}
 }
 
-func constructLinear[T comparable](d *drv, c *codec[T]) {
+func constructLinear[T comparable](d *drv, c *codec[T], newHeap func() *binaryheap.Heap[T], newPQ func() *priorityqueue.Queue[T]) {
 	switch d.cfg.Kind {
 	case "ArrayStack":
 		s := arraystack.New[T]()
@@ -260,6 +264,9 @@ func constructLinear[T comparable](d *drv, c *codec[T]) {
 		}
 	case "BinaryHeap":
 		h := binaryheap.NewWith[T](c.cmpFn(d.cfg.KRev))
+		if newHeap != nil {
+			h = newHeap()
+		}
 		bindBase[T](d, h, c)
 		d.push = func(v int) { h.Push(c.enc(v)) }
 		d.pushAll = func(vs ...int) { h.Push(c.encs(vs)...) }
@@ -271,6 +278,9 @@ func constructLinear[T comparable](d *drv, c *codec[T]) {
 		d.fingerprint = func() string { return "BH" + arrayListFP(d, h.VerifInner(), c) }
 	case "PriorityQueue":
 		q := priorityqueue.NewWith[T](c.cmpFn(d.cfg.KRev))
+		if newPQ != nil {
+			q = newPQ()
+		}
 		bindBase[T](d, q, c)
 		d.enqueue = func(v int) { q.Enqueue(c.enc(v)) }
 		d.dequeue, d.peek = wrapPop(d, c, q.Dequeue), wrapPop(d, c, q.Peek)
